@@ -501,6 +501,34 @@ namespace bloch::runtime {
                                                  const std::string& ownerLabel) {
         Value v;
         v.type = field.type.kind;
+        // A size given by a name ('qubit[N] qs' with a static final N) is not known to the
+        // parser; evaluate it in the declaring class's context, as for a local declaration.
+        int arraySize = field.arraySize;
+        if (arraySize < 0 && field.arraySizeExpr) {
+            RuntimeClass* prevClass = m_currentClassCtx;
+            bool prevStatic = m_inStaticContext;
+            if (RuntimeClass* owner = findClass(ownerLabel)) {
+                m_currentClassCtx = owner;
+                m_inStaticContext = true;
+            }
+            Value sizeVal;
+            try {
+                sizeVal = eval(field.arraySizeExpr);
+            } catch (...) {
+                m_currentClassCtx = prevClass;
+                m_inStaticContext = prevStatic;
+                throw;
+            }
+            m_currentClassCtx = prevClass;
+            m_inStaticContext = prevStatic;
+            if (sizeVal.type != Value::Type::Int)
+                throw BlochError(ErrorCategory::Runtime, field.line, field.column,
+                                 "array size must evaluate to an int");
+            if (sizeVal.intValue < 0)
+                throw BlochError(ErrorCategory::Runtime, field.line, field.column,
+                                 "array size must be non-negative");
+            arraySize = sizeVal.intValue;
+        }
         auto makeQubitName = [&](int index) {
             std::ostringstream oss;
             oss << ownerLabel << "." << field.name;
@@ -534,35 +562,35 @@ namespace bloch::runtime {
                 v.qubit = allocateTrackedQubit(makeQubitName(-1));
                 break;
             case Value::Type::IntArray:
-                v.intArray.assign(std::max(0, field.arraySize), 0);
+                v.intArray.assign(std::max(0, arraySize), 0);
                 break;
             case Value::Type::LongArray:
-                v.longArray.assign(std::max(0, field.arraySize), 0);
+                v.longArray.assign(std::max(0, arraySize), 0);
                 break;
             case Value::Type::FloatArray:
-                v.floatArray.assign(std::max(0, field.arraySize), 0.0);
+                v.floatArray.assign(std::max(0, arraySize), 0.0);
                 break;
             case Value::Type::BitArray:
-                v.bitArray.assign(std::max(0, field.arraySize), 0);
+                v.bitArray.assign(std::max(0, arraySize), 0);
                 break;
             case Value::Type::BooleanArray:
-                v.boolArray.assign(std::max(0, field.arraySize), false);
+                v.boolArray.assign(std::max(0, arraySize), false);
                 break;
             case Value::Type::StringArray:
-                v.stringArray.assign(std::max(0, field.arraySize), "");
+                v.stringArray.assign(std::max(0, arraySize), "");
                 break;
             case Value::Type::CharArray:
-                v.charArray.assign(std::max(0, field.arraySize), '\0');
+                v.charArray.assign(std::max(0, arraySize), '\0');
                 break;
             case Value::Type::QubitArray: {
-                int n = std::max(0, field.arraySize);
+                int n = std::max(0, arraySize);
                 v.qubitArray.resize(n);
                 for (int i = 0; i < n; ++i)
                     v.qubitArray[i] = allocateTrackedQubit(makeQubitName(i));
                 break;
             }
             case Value::Type::ObjectArray: {
-                int n = std::max(0, field.arraySize);
+                int n = std::max(0, arraySize);
                 v.objectArray.assign(n, {});
                 break;
             }
@@ -1204,8 +1232,10 @@ namespace bloch::runtime {
                     f.declaredIn = clsNode->name;
                     f.initializer = field->initializer.get();
                     f.hasInitializer = field->initializer != nullptr;
-                    if (auto arr = dynamic_cast<ArrayType*>(field->fieldType.get()))
+                    if (auto arr = dynamic_cast<ArrayType*>(field->fieldType.get())) {
                         f.arraySize = arr->size;
+                        f.arraySizeExpr = arr->sizeExpression.get();
+                    }
                     f.line = field->line;
                     f.column = field->column;
                     if (f.isTracked || f.type.kind == Value::Type::Qubit ||
@@ -1345,8 +1375,10 @@ namespace bloch::runtime {
                 f.declaredIn = tmpl->name;
                 f.initializer = field->initializer.get();
                 f.hasInitializer = field->initializer != nullptr;
-                if (auto arr = dynamic_cast<ArrayType*>(field->fieldType.get()))
+                if (auto arr = dynamic_cast<ArrayType*>(field->fieldType.get())) {
                     f.arraySize = arr->size;
+                    f.arraySizeExpr = arr->sizeExpression.get();
+                }
                 f.line = field->line;
                 f.column = field->column;
                 if (f.isTracked || f.type.kind == Value::Type::Qubit ||
